@@ -528,7 +528,9 @@ fn build_filter(lhs: &AstNode, rhs: &AstNode) -> Result<Evaluator> {
         let rhv = rhe(scope);
         match rhv {
           Value::Number(index) => {
-            if index.is_integer() {
+            // any number with an integral value is an index, whatever its exponent (1.0, 1E+1)
+            if index.trunc() == index {
+              let index = index.trunc();
               let list_size = values.as_vec().len();
               if !index.is_negative() {
                 let n = {
